@@ -25,6 +25,10 @@ pub struct Case {
     pub asymmetric: bool,
     #[serde(default)]
     pub no_guard: bool,
+    /// the sender writes in small pieces with pauses (buffered data often lies between the proven and the
+    /// probed size); convergence clauses apply to bulk writers only
+    #[serde(default)]
+    pub trickle: bool,
 }
 
 fn strategy(tier: Tier) -> BoxedStrategy<Case> {
@@ -34,9 +38,10 @@ fn strategy(tier: Tier) -> BoxedStrategy<Case> {
             (
                 gens::link_mtu(v6), gens::link_mtu(v6), 0u16..=1000, 0u16..=1000, 0u8..4, 0u8..4,
                 gens::rnd_stream(), gens::rnd_stream(), (1u16..40), if lossy { gens::fates_fair(600, 60) } else { Just(vec![]).boxed() }, any::<u64>(),
-                prop_oneof![1 => Just(0u32), 1 => 1u32..20_000],
+                (prop_oneof![1 => Just(0u32), 1 => 1u32..20_000],
+                prop::option::weighted(0.4, prop::collection::vec((prop_oneof![3 => 1u32..1000, 3 => 400u32..1600, 1 => 1600u32..12_000], prop_oneof![2 => Just(0u32), 3 => 1u32..120, 1 => 120u32..900]), 20..120))),
             )
-                .prop_map(move |(l0, l1, f0, f1, pr0, pr1, rnd0, rnd1, lat, fates, key, back)| {
+                .prop_map(move |(l0, l1, f0, f1, pr0, pr1, rnd0, rnd1, lat, fates, key, (back, trickle))| {
                     let mut s0 = SockCfg { v6, link_mtu: l0, probe_retx: pr0, rnd: rnd0, ..SockCfg::default() };
                     let mut s1 = SockCfg { v6, link_mtu: l1, probe_retx: pr1, rnd: rnd1, ..SockCfg::default() };
                     for s in [&mut s0, &mut s1] { s.inactivity_ms = 600_000; s.max_retx = 8; s.tx_init = 1 << 20; s.tx_max = 1 << 20; }
@@ -56,16 +61,31 @@ fn strategy(tier: Tier) -> BoxedStrategy<Case> {
                         if !asymmetric { net.path_mtu.1 = Some(p0); }
                     }
                     // long enough to converge: `segs` segments of the largest size
-                    let total = (segs * s0.max_payload() as u32).min(1_500_000).max(20_000);
+                    let mut total = (segs * s0.max_payload() as u32).min(1_500_000).max(20_000);
+                    let mut a_w = vec![WOp::Write { n: total, chunk: 1 << 20 }, WOp::Flush];
+                    let is_trickle = trickle.is_some();
+                    if let Some(pieces) = trickle {
+                        // piece sizes relative to the segment sizes in play
+                        let scale = (s0.max_payload() as u32).max(100);
+                        a_w = vec![];
+                        total = 0;
+                        for (n, pause) in pieces {
+                            let n = (n as u64 * scale as u64 / 1000).max(1) as u32;
+                            total += n;
+                            a_w.push(WOp::Write { n, chunk: 1 << 20 });
+                            if pause > 0 { a_w.push(WOp::Sleep(pause)); }
+                        }
+                        a_w.push(WOp::Flush);
+                    }
                     let sc = Scenario {
                         socks: vec![s0, s1],
-                        conns: vec![ConnPlan { from: 0, to: 1, start_ms: 0, key, a_w: vec![WOp::Write { n: total, chunk: 1 << 20 }, WOp::Flush], a_r: vec![ROp::Read { n: back, buf: 65536 }], b_w: if back > 0 { vec![WOp::Write { n: back, chunk: 1 << 20 }, WOp::Flush] } else { vec![] }, b_r: vec![ROp::Read { n: total, buf: 65536 }] }],
+                        conns: vec![ConnPlan { from: 0, to: 1, start_ms: 0, key, a_w, a_r: vec![ROp::Read { n: back, buf: 65536 }], b_w: if back > 0 { vec![WOp::Write { n: back, chunk: 1 << 20 }, WOp::Flush] } else { vec![] }, b_r: vec![ROp::Read { n: total, buf: 65536 }] }],
                         net,
                         events: vec![],
                         deadline_ms: 3_000_000,
                         linger_ms: 0,
                     };
-                    Case { sc, asymmetric, no_guard: false }
+                    Case { sc, asymmetric, no_guard: false, trickle: is_trickle }
                 })
         })
         .boxed()
@@ -234,7 +254,8 @@ pub fn oracle(case: &Case, res: &RunResult) -> Outcome {
     }
     let range = (s0.max_payload() - s0.min_payload() + 1) as f64;
     let bound = 2 * (range.log2().ceil() as usize) + 3;
-    if !case.asymmetric {
+    if case.trickle { labels.insert("trickle_writer"); }
+    if !case.asymmetric && !case.trickle {
         if steady[0] != target && total as usize > 80 * s0.max_payload() {
             viol!("not-converged", "after {} bytes the steady segment size of the sender is {} but the largest payload that fits the path is {} (path MTU {:?}, link MTU {}, EMSGSIZE above {:?}, probes sent {})", total, steady[0], target, sc.net.path_mtu.0, s0.link_mtu, s0.emsgsize_above, probes_total[0]);
         }
@@ -274,7 +295,7 @@ pub fn run(ctx: &mut Ctx) {
     ctx.rule("E2E: link MTU 49..9000 per side, true path MTU between the protocol minimum and the smaller link MTU (symmetric; 15 % asymmetric), IPv4/IPv6, silent blackhole or EMSGSIZE on the local link, mtu_probe_max_retransmissions 0..3, fair loss of non-probe datagrams in half of the cases, bulk transfer of 120/400 maximum-size segments plus optional reverse traffic. Oracle: every emitted datagram fits the emitter's link MTU (whatever the peer sends); first transmissions above the proven size (protocol minimum, own acked sizes, received sizes clamped to the link) are probes: one outstanding at a time and the newest segment; C01 integrity; the steady segment size at the end equals the largest payload that fits and the number of probes is <= 2*ceil(log2(range)) + 3. non-trivial = fitting size strictly between minimum and link size, >= 2 probes, >= 1 probe stopped by the path/link; distinct by (target, link MTU, probes, family, drops)");
     ctx.assume("probes themselves are exempt from the random fault plan (the property speaks of loss of non-probe packets)");
     ctx.replay_corpus::<E2e>();
-    ctx.run_generated::<E2e>(ctx.tier.pick(1_500, 60_000));
+    ctx.run_generated::<E2e>(ctx.tier.pick(12_000, 400_000));
 }
 
 pub fn replay(v: &Value) -> Option<i32> {
